@@ -31,7 +31,7 @@ func init() {
 
 type c20item struct {
 	kind byte // 't' term, 'g' DCG rule (src => exp), 'x' syntax fault, 'c' comment
-	t    *gt
+	t    *gt_c09
 	exp  string // wire of the expansion ('g')
 	sub  string // 'x': paren|tok|ops ; 'c': line|block
 }
@@ -49,7 +49,7 @@ func (it c20item) payload() string {
 	}
 }
 
-func gtList(elems ...*gt) *gt {
+func gtList(elems ...*gt_c09) *gt_c09 {
 	l := ga("[]")
 	for i := len(elems) - 1; i >= 0; i-- {
 		l = gc(".", elems[i], l)
@@ -60,7 +60,7 @@ func gtList(elems ...*gt) *gt {
 var c20ops = map[string]int{":-": 1200, "-->": 1200, ";": 1100, "->": 1050, ",": 1000, "=": 700, "/": 400}
 
 // src renders a term as source text with the usual operators; max = maximal priority allowed here.
-func (t *gt) src(max int) string {
+func (t *gt_c09) src(max int) string {
 	switch t.k {
 	case 'V':
 		return fmt.Sprintf("X%d", t.n)
@@ -213,9 +213,9 @@ type c20gen struct {
 	shared   *c20pred
 }
 
-func (g *c20gen) v() *gt { g.nv++; return gv(g.nv - 1) }
+func (g *c20gen) v() *gt_c09 { g.nv++; return gv(g.nv - 1) }
 
-func (g *c20gen) arg() *gt {
+func (g *c20gen) arg() *gt_c09 {
 	switch k := g.r.Intn(10); {
 	case k < 4:
 		return gi(int64(g.r.Intn(4)))
@@ -226,7 +226,7 @@ func (g *c20gen) arg() *gt {
 	}
 }
 
-func (g *c20gen) goal() *gt {
+func (g *c20gen) goal() *gt_c09 {
 	switch g.r.Intn(5) {
 	case 0:
 		return ga("true")
@@ -246,7 +246,7 @@ var c20expandMu sync.Mutex
 // clause of predicate p (a DCG rule for grammar predicates)
 func (g *c20gen) clause(p c20pred) c20item {
 	if p.dcg {
-		var body *gt
+		var body *gt_c09
 		switch g.r.Intn(3) {
 		case 0:
 			body = gtList(ga(pick(g.r, []string{"x", "y"})))
@@ -263,7 +263,7 @@ func (g *c20gen) clause(p c20pred) c20item {
 		must(err)
 		return c20item{kind: 'g', t: src, exp: wire(exp, nil, newVarNamer())}
 	}
-	args := make([]*gt, p.arity)
+	args := make([]*gt_c09, p.arity)
 	for i := range args {
 		args[i] = g.arg()
 	}
@@ -282,9 +282,9 @@ func (g *c20gen) clause(p c20pred) c20item {
 	}
 }
 
-func c20directive(t *gt) c20item { return c20item{kind: 't', t: gc(":-", t)} }
+func c20directive(t *gt_c09) c20item { return c20item{kind: 't', t: gc(":-", t)} }
 
-func c20pi(p c20pred) *gt {
+func c20pi(p c20pred) *gt_c09 {
 	ar := p.arity
 	if p.dcg {
 		ar += 2
@@ -368,7 +368,7 @@ func (g *c20gen) text(valid bool, files map[string][]c20item) ([]c20item, int) {
 	}
 	// directives and comments at block boundaries
 	for i, n := 0, g.r.Intn(4); i < n; i++ {
-		var d *gt
+		var d *gt_c09
 		switch k := g.r.Intn(8); {
 		case k == 0:
 			d = ga("true")
@@ -534,10 +534,10 @@ func c20parseItems(s string) []c20item {
 		f := strings.SplitN(p, " ", 2)
 		switch f[0] {
 		case "t":
-			items = append(items, c20item{kind: 't', t: parseGT(f[1])})
+			items = append(items, c20item{kind: 't', t: parseGT_c20(f[1])})
 		case "g":
 			se := strings.SplitN(f[1], " => ", 2)
-			items = append(items, c20item{kind: 'g', t: parseGT(se[0]), exp: se[1]})
+			items = append(items, c20item{kind: 'g', t: parseGT_c20(se[0]), exp: se[1]})
 		case "x":
 			items = append(items, c20item{kind: 'x', sub: f[1]})
 		case "c":
@@ -549,11 +549,11 @@ func c20parseItems(s string) []c20item {
 	return items
 }
 
-// parseGT parses one wire term into a gt.
-func parseGT(s string) *gt {
+// parseGT_c20 parses one wire term into a gt_c09.
+func parseGT_c20(s string) *gt_c09 {
 	toks := strings.Fields(s)
-	var dec func() *gt
-	dec = func() *gt {
+	var dec func() *gt_c09
+	dec = func() *gt_c09 {
 		tok := toks[0]
 		toks = toks[1:]
 		body := tok[1:]
@@ -576,11 +576,11 @@ func parseGT(s string) *gt {
 			must(err)
 			f, err := decName(body[i+1:])
 			must(err)
-			args := make([]*gt, n)
+			args := make([]*gt_c09, n)
 			for j := range args {
 				args[j] = dec()
 			}
-			return &gt{k: 'C', s: f, args: args}
+			return &gt_c09{k: 'C', s: f, args: args}
 		}
 		panic("bad token " + tok)
 	}
